@@ -10,15 +10,9 @@ FRQ = [1, 2, 4, 8, 16, 24, 32, 40, 48]           # packet durations in 2.5 ms un
 AMBI = [1, 3, 4, 6, 9, 11, 16, 18, 25, 27, 36, 38, 49, 51, 64, 66, 81, 83, 100, 102, 121, 123, 144, 146, 169, 171, 196, 198, 225, 227]
 PROJ = [4, 6, 9, 11, 16, 18, 25, 27, 36, 38]
 
-# known findings the coordinator has not moved into known_findings.json yet
-PROVISIONAL = [
-    dict(property="C10", status="known", id="F10a",
-         key=dict(call="opus_projection_decoder_create", channels_nonpositive=True,
-                  site="src/opus_projection_decoder.c opus_projection_decoder_init: ALLOC(buf, nb_input_streams * channels, opus_int16)"),
-         what=("opus_projection_decoder_create/init with channels <= 0 and a matrix size of 2*channels*(streams+coupled) bytes (0 or negative) "
-               "passes the size check and declares a variable length array of zero or fewer elements before `channels` is validated: undefined "
-               "behaviour (UBSan vla-bound abort in the instrumented build; the production build goes on to return OPUS_BAD_ARG)")),
-]
+# known findings the coordinator has not moved into known_findings.json yet (none; F13, the projection decoder's
+# unvalidated channel count, is fixed in /repo e069474b and suppresses nothing)
+PROVISIONAL = []
 
 
 # --------------------------------------------------------------------------- TLC-generated inputs
@@ -38,13 +32,12 @@ def parse_prints(r):
             m = re.match(r"MSP (\d+) <<(.*)>>", s)
             if m:
                 msps.append((int(m.group(1)), [int(x) for x in m.group(2).split(",") if x.strip()]))
-    return lays, fams, msps
+    # TLC's workers print in no particular order: canonical order makes the run repeatable (R4)
+    return sorted(lays), sorted(fams), sorted(msps)
 
 
 def create_lines(lays, fams):
-    """(commands run in bulk, commands run one per process: projection decoder with channels <= 0, see PROVISIONAL)"""
     out = []
-    iso = []
     for ch, S, C, mp in lays:
         tail = " ".join(str(x) for x in mp)
         out.append("C dec %d %d %d %s" % (ch, S, C, tail))
@@ -58,9 +51,9 @@ def create_lines(lays, fams):
             right = 2 * ch * (S + C)
             for msz in {right, right - 2, right + 2, 0}:
                 if 0 <= msz <= 140000:
-                    (iso if ch <= 0 else out).append("C pdec %d %d %d %d" % (ch, S, C, msz))
-    iso.append("C pdec -1 1 1 -4")
-    return out, sorted(set(iso))
+                    out.append("C pdec %d %d %d %d" % (ch, S, C, msz))
+    out.append("C pdec -1 1 1 -4")          # negative channel count with the "matching" negative matrix size (finding F13)
+    return out
 
 
 def d_lines(msps, rng):
@@ -241,7 +234,7 @@ def command_of(event, ip):
 
 
 STAT = dict(events={}, pk_by_kind={}, families_run=set(), layouts_run=set(), tone_events=0, tone_in_domain=0, min_tone_margin_cdB=99999,
-            min_proj_margin_cdB=99999, proj_in_domain=0, max_tone_level_error_cdB=0, max_proj_level_error_cdB=0, discriminating=0, muted_channels=0, dup_channels=0, lost=0, encode_failed=0,
+            min_proj_margin_cdB=99999, proj_in_domain=0, max_tone_level_error_cdB=0, max_proj_level_error_cdB=0, min_lfe_tone_margin_cdB=99999, discriminating=0, muted_channels=0, dup_channels=0, lost=0, encode_failed=0,
             hand_refused=0, max_streams=0, max_channels=0, formats=3)
 
 
@@ -285,8 +278,12 @@ def scan(ctx, path):
                     STAT["families_run"].add((e["f"], e["ch"]))
                 if tone_domain(e):
                     STAT["tone_in_domain"] += 1
-                    STAT["min_tone_margin_cdB"] = min([STAT["min_tone_margin_cdB"]] + e["sm"])
-                    STAT["max_tone_level_error_cdB"] = max([STAT["max_tone_level_error_cdB"]] + [abs(v) for v in e["sv"]])
+                    lfe = e["t"] == "surr" and e["f"] == 1 and e["ch"] >= 6       # the last slot is the LFE: margin and level are not asserted there
+                    sm = e["sm"][:-1] if lfe else e["sm"]; sv = e["sv"][:-1] if lfe else e["sv"]
+                    STAT["min_tone_margin_cdB"] = min([STAT["min_tone_margin_cdB"]] + sm)
+                    STAT["max_tone_level_error_cdB"] = max([STAT["max_tone_level_error_cdB"]] + [abs(v) for v in sv])
+                    if lfe:
+                        STAT["min_lfe_tone_margin_cdB"] = min(STAT["min_lfe_tone_margin_cdB"], e["sm"][-1])
             elif k == "pt":
                 STAT["families_run"].add((3, e["ch"]))
                 if proj_tone_domain(e):
@@ -399,29 +396,9 @@ def confirm(ctx, exe, cmd, e):
     return len(rej) > 0
 
 
-def known_crash(ip, err):
-    """PROVISIONAL F10a: a single `C pdec ch ..` command with ch <= 0 aborting on the zero-length array"""
-    with open(ip) as f:
-        cmds = [l.split() for l in f if l.strip()]
-    if len(cmds) != 1 or cmds[0][:2] != ["C", "pdec"] or int(cmds[0][2]) > 0:
-        return None
-    if "opus_projection_decoder.c" in err and "variable length array bound" in err:
-        for k in vf.known_findings("C10") + PROVISIONAL:
-            if k.get("key", {}).get("call") == "opus_projection_decoder_create" and k.get("key", {}).get("channels_nonpositive"):
-                return k
-    return None
-
-
-def report_crashes(ctx, runs, what, iso_known=False):
-    told = False
+def report_crashes(ctx, runs, what):
     for ip, op, rc, err in runs:
         if rc != 0:
-            kf = known_crash(ip, err) if iso_known else None
-            if kf:
-                if not told:
-                    ctx.known_finding(kf["what"] + " [e.g. %s]" % open(ip).read().strip())
-                    told = True
-                continue
             # sanitizer / assertion abort, canary damage, hang: reported directly; what was recorded before it is still judged
             last = ""
             try:
@@ -455,7 +432,8 @@ def run(ctx):
                        "at >= 64 kb/s per coded channel; projection round trip at >= 96 kb/s with every stream coded by the transform layer; both for "
                        "packets of 10-60 ms, >= 200 ms of signal, a buffer of twice the bitrate's bytes, and with a 6 dB margin between the strongest "
                        "and the second strongest tone and 7 dB of slack on the tone's level (calibrated: worst margin 35.7 dB / 19.4 dB inside the domain, "
-                       "17.8 dB for 80 ms packets; worst level error 0.41 dB / 0.55 dB, R3)",
+                       "17.8 dB for 80 ms packets; worst level error 0.41 dB / 0.55 dB, R3); on the LFE stream of a surround encoder, which gets a small "
+                       "fraction of the rate, only the identity of the strongest tone is asserted (worst margin seen there 14.4 dB)",
                        "matrix identity tolerance 1/500 of the diagonal (measured worst deviation is recorded under matrix_deviation_ppm)",
                        "sample rates and the three sample formats are covered by sampling; FEC decoding and DRED are not exercised"]
     if ctx.replay:
@@ -482,15 +460,10 @@ def run(ctx):
     hko = vf.build_variant("hko")
     exe_o = vf.build_hx(hko, "ms.c")
     # 3. create calls, matrices, TLC-generated byte strings (sanitizer build)
-    cl, iso = create_lines(lays, fams)
+    cl = create_lines(lays, fams)
     dl = d_lines(msps, rng)
-    runs1 = run_groups(ctx, [(exe_hk, "create", cl, 4), (exe_hk, "bytes", dl, 3), (exe_hk, "matrix", ["M"], 1)] +
-                       [(exe_hk, "pdeciso%d" % i, [c], 1) for i, c in enumerate(iso)])
-    runs_iso = [r0 for r0 in runs1 if "pdeciso" in os.path.basename(r0[0])]
-    runs1 = [r0 for r0 in runs1 if "pdeciso" not in os.path.basename(r0[0])]
+    runs1 = run_groups(ctx, [(exe_hk, "create", cl, 4), (exe_hk, "bytes", dl, 3), (exe_hk, "matrix", ["M"], 1)])
     report_crashes(ctx, runs1, "create/bytes/matrix")
-    report_crashes(ctx, runs_iso, "projection decoder create", iso_known=True)
-    runs1 += [r0 for r0 in runs_iso if r0[2] == 0]
     # matrices: the design theorem on the exported tables
     mxp = ctx.path("matrices.ndjson")
     with open(mxp, "w") as fo:
@@ -553,7 +526,9 @@ def run(ctx):
     report_crashes(ctx, runs2, "executions")
     for ip, op, rc, err in runs2:
         ctx.evaluations += scan(ctx, op)
-    ctx.notes["executions"] = dict(encoder_runs=len(X), hand_built_runs=len(H))
+    import hashlib
+    ctx.notes["executions"] = dict(encoder_runs=len(X), hand_built_runs=len(H),
+                                   plan_sha1=hashlib.sha1("\n".join(cl + dl + X + H).encode()).hexdigest())
     nrej = judge(ctx, exe_hk, runs2, "C10 executions")
     # 5. model conformance beyond the property (SPEC-DRIFT only)
     if not ctx.violations:
